@@ -333,3 +333,49 @@ def check_saved_error(ctx, fb, rule):
             elif reads and 'dtor' not in f.flags and 'ctor' not in f.flags:
                 ctx.report(rule, key, f.loc(reads[0]), 'the saved error is accessed outside Consume/destructor')
                 return
+
+
+# ---------------------------------------------------------------------------------------------------------------------
+# R-POLICYFWD: the fail policy the caller selected is the policy of everything the entry point reaches
+POLICY_ENUM = 'yaclib::FailPolicy'
+POLICY_NAMES = {'0': 'None', '1': 'FirstFail', '2': 'LastFail'}
+
+
+def check_policy_forward(ctx, fb, rule, entries, any_family):
+    """Every function instantiation of the combinator layer that is parameterised by a FailPolicy (its own template
+    arguments or those of its class, nested specialisations included — the extractor lists them as `pe`) must hand the
+    SAME policy to every callee that is itself parameterised by one (`cpe` of the call / construct node).  A wrapper
+    that drops the argument (the callee's default policy applies) or names another one compiles whenever the result
+    type does not depend on the policy, and then completes the output at the wrong moment.
+    `entries`: regex of the public entry points whose instantiations must be present (non-vacuity).
+    `any_family`: True = only the WhenAny instantiations (strategy when::Any), False = only the others."""
+    import re
+    seen_entries = set()
+    for f in fb.fn.values():
+        if f.cfg is None or not f.pe or '/include/yaclib/' not in f.file:
+            continue
+        ident = ' '.join([f.qn, f.clsq] + list(f.fta) + list(f.cta))
+        if bool(re.search(r'\bWhenAny\b|\bwhen::Any\b', ident)) != any_family:
+            continue
+        mine = {e.split('=')[1] for e in f.pe if e.split('=')[0] == POLICY_ENUM}
+        if len(mine) != 1:
+            continue
+        p = next(iter(mine))
+        sites = 0
+        for n in f.own_nodes():
+            theirs = {e.split('=')[1] for e in n.get('cpe', ()) if e.split('=')[0] == POLICY_ENUM}
+            if not theirs:
+                continue
+            sites += 1
+            if theirs != mine:
+                ctx.report(rule, 'R-POLICYFWD %s -> %s' % (f.qn, n.get('cn') or n.get('cr') or '?'), f.loc(n),
+                           '%s instantiated with FailPolicy::%s calls %s instantiated with FailPolicy::%s: the policy '
+                           'the caller selected is not the one that decides when the output completes' % (
+                               f.qn, POLICY_NAMES.get(p, p), n.get('cn') or n.get('cr') or 'a callee',
+                               '/'.join(POLICY_NAMES.get(x, x) for x in sorted(theirs))),
+                           'caller instantiation: %s' % f.full[:300])
+        if sites:
+            if re.search(entries, f.qn):
+                seen_entries.add((f.qn, len(f.params), p))
+            ctx.instance(rule, 'R-POLICYFWD %s/%d <%s>' % (f.qn, len(f.params), POLICY_NAMES.get(p, p)), None)
+    return seen_entries
